@@ -488,6 +488,17 @@ def diagnostic_catalogue():
         if 'zq_u' in body:
             c['planted_alts'] = ['zq_t', 'zq_u']      # a cycle of two: either member names it
         yield c
+    # an interfaced item that does not exist, asked for under another name: the diagnostic names the item that was looked for, in the schema it was
+    # looked for in - not the local alias
+    for kw in ('USE', 'REFERENCE'):
+        yield {'kind': 'catalogue', 'cls': 'interfaced-item-missing-renamed', 'expect': ['REF_NONEXISTENT'], 'detail': 'REF_NONEXISTENT/' + kw, 'planted': 'zq_washer', 'name': 'cat',
+               'text': 'SCHEMA supplier;\nENTITY bolt; d : REAL; END_ENTITY;\nEND_SCHEMA;\nSCHEMA zq_cat;\n%s FROM supplier (zq_washer AS local_spacer, bolt AS local_pin);\nENTITY kit; p : local_pin; END_ENTITY;\nEND_SCHEMA;\n' % kw}
+    # the same schema name declared in two files found through EXPRESS_PATH: the redeclaration is reported in the second file and points to the first
+    for first, second in (('zq_lib_b', 'zq_lib_c'), ('zq_lib_c', 'zq_lib_b')):
+        lib = lambda n: 'SCHEMA %s;\nENTITY thing_%s; x : REAL; END_ENTITY;\nEND_SCHEMA;\n\nSCHEMA zq_common;\nENTITY shared_%s; y : REAL; END_ENTITY;\nEND_SCHEMA;\n' % (n, n, n)
+        yield {'kind': 'catalogue', 'cls': 'schema-redeclared-in-another-file', 'expect': ['DUPLICATE_DECL_DIFF_FILE'], 'detail': 'DUPLICATE_DECL_DIFF_FILE/%s-first' % first, 'planted': 'zq_common', 'name': 'cat',
+               'text': 'SCHEMA zq_cat;\nUSE FROM %s (thing_%s);\nUSE FROM %s (thing_%s);\nENTITY top; a : thing_%s; b : thing_%s; END_ENTITY;\nEND_SCHEMA;\n' % (first, first, second, second, first, second),
+               'extra_files': {'zq_lib_b.exp': lib('zq_lib_b'), 'zq_lib_c.exp': lib('zq_lib_c')}}
     # a schema looked up through EXPRESS_PATH whose file holds another schema
     yield {'kind': 'catalogue', 'cls': 'schema-not-in-own-file', 'expect': ['SCHEMA_NOT_IN_OWN_SCHEMA_FILE'], 'detail': 'SCHEMA_NOT_IN_OWN_SCHEMA_FILE', 'planted': 'zq_ext', 'name': 'cat',
            'text': 'SCHEMA zq_cat;\nREFERENCE FROM zq_ext (thing);\nEND_SCHEMA;\n', 'extra_files': {'zq_ext.exp': 'SCHEMA zq_other;\nENTITY thing; END_ENTITY;\nEND_SCHEMA;\n'}}
